@@ -254,6 +254,33 @@ def run(chk, repo):
                            "block needs (more than (j-1)*hop+size for j blocks)", node=ys[0])
     chk.floor("R2.3.complete", nlv, 2, "yielding leaves of blocks")
 
+    # resample: the window advances only once the position is strictly past its centre
+    chk.rule("R2.4", "resample look-ahead: a new input sample is pulled only while idx > threshold (strictly) and each pull "
+                     "is paired with idx -= 1, so output k never reads further than the samples its interpolation window needs")
+    rs = repo.find("lazy_poly", "resample")
+    pmod = repo.mod("lazy_poly")
+    n24 = 0
+    for wl in [n for n in ast.walk(rs) if isinstance(n, ast.While) and not (isinstance(n.test, ast.Constant))]:
+        pulls = [n for n in ast.walk(wl) if isinstance(n, ast.Call) and unparse(n.func) == "next"]
+        if not pulls:
+            continue
+        n24 += 1
+        t = wl.test
+        strict = False
+        desc = unparse(t)
+        if isinstance(t, ast.Compare) and len(t.ops) == 1:
+            l, r_, op = unparse(t.left), unparse(t.comparators[0]), t.ops[0]
+            thr = {"threshold"} | {unparse(s_.value) for s_ in ast.walk(rs) if isinstance(s_, ast.Assign)
+                                   and unparse(s_.targets[0]) == "threshold"}
+            strict = (isinstance(op, ast.Gt) and l == "idx" and r_ in thr) or (isinstance(op, ast.Lt) and r_ == "idx" and l in thr)
+        dec = [s_ for s_ in wl.body if isinstance(s_, ast.AugAssign) and isinstance(s_.op, ast.Sub) and unparse(s_.target) == "idx"
+               and unparse(s_.value) == "1"]
+        chk.decide(strict and len(pulls) == 1 and len(dec) == 1, "R2.4", "%s:resample" % pmod.relpath,
+                   "while %s: %s" % (desc, " ; ".join(unparse(s_) for s_ in wl.body)),
+                   why="with a non-strict guard the window moves as soon as the position reaches its centre: one input more "
+                       "than needed is read (and a finite input ends one output early)", node=wl)
+    chk.floor("R2.4", n24, 1, "window-advance loops in resample")
+
     # generator stages must not touch their source outside generator frames: being generator functions they cannot.
     # ParallelFilter hub
     pc = repo.find("lazy_filters", "ParallelFilter.__call__")
